@@ -20,7 +20,7 @@ def block_loop(ctx, vb):
         return None, None, None
     h, lblocks = loops[0]
     drivers = {bi for bi, t in vb.calls() if bi in lblocks and callee_matches(t, r"Iterator>?::next$")
-               and re.search(r"blocks_with_context", render(ctx.expr(vb).operand(t["args"][0]), 3000))}
+               and (lambda txt: "blocks_with_context" in txt and not re.search(r"\blines\(|Block::content\(|split\w*\(|chars\(", txt))(render(ctx.expr(vb).operand(t["args"][0]), 3000))}
     return h, set(lblocks), drivers
 
 
@@ -35,6 +35,9 @@ class Report:
     def __init__(self):
         self.reported = set()
         self.problems = []
+        self.accepted = False       # the next block is reached (no error)
+        self.errors = 0             # returns with Err
+        self.ok_returns = 0         # returns without error (inside one block's iteration)
 
 
 def walk_block(ctx, vb, attr, lines, hook_extra, attr_value=None, max_states=40000):
@@ -91,6 +94,13 @@ def walk_block(ctx, vb, attr, lines, hook_extra, attr_value=None, max_states=400
             env[-6] = CW.const(n)
             if n > 1:
                 rep.problems.append("more than one violation is built for one block")
+        tm = vb.blocks[bb]["term"]
+        if tm and tm["k"] == "return":
+            r0 = env.get(0, CW.TOP)
+            if r0[0] == "adt" and r0[2] == "Err":
+                rep.errors += 1
+            else:
+                rep.ok_returns += 1
     w.on_visit = on_visit
     first = [True]
 
@@ -99,6 +109,7 @@ def walk_block(ctx, vb, attr, lines, hook_extra, attr_value=None, max_states=400
             if first[0]:
                 first[0] = False
                 return False
+            rep.accepted = True
             return True
         return False
     try:
